@@ -451,6 +451,132 @@ def big_chunk_run(ctx):
     ctx.nontriv("real-big-chunks")
 
 
+def run_with_stdout(argv, inputs, cores, timeout=180):
+    """`python -m cutadapt` of the scratch build as a process of its own (the main output goes to standard output, which an in-process run cannot
+    capture); returns (status | 'timeout', stdout bytes, files)"""
+    import shutil
+    import signal
+    import subprocess
+    import sys
+    import tempfile
+    d = tempfile.mkdtemp(prefix="cv-c06-", dir="/var/tmp")
+    try:
+        for name, content in inputs.items():
+            with open(os.path.join(d, name), "wb" if isinstance(content, bytes) else "w") as f:
+                f.write(content)
+        real = ["-j", str(cores)] + [a.replace("{dir}", d) for a in argv]
+        p = subprocess.Popen([sys.executable, "-m", "cutadapt"] + real, stdin=subprocess.DEVNULL, stdout=subprocess.PIPE, stderr=subprocess.PIPE,
+                             start_new_session=True, env=os.environ.copy())
+        try:
+            out, _ = p.communicate(timeout=timeout)
+            status = p.returncode
+        except subprocess.TimeoutExpired:
+            status, out = "timeout", b""
+        finally:
+            try:
+                os.killpg(p.pid, signal.SIGKILL)
+            except (ProcessLookupError, PermissionError):
+                pass
+            if status == "timeout":
+                p.wait()
+        files = {}
+        for fn in sorted(os.listdir(d)):
+            if fn not in inputs:
+                with open(os.path.join(d, fn), "rb") as f:
+                    files[fn] = f.read()
+        return status, out, files
+    finally:
+        shutil.rmtree(d, ignore_errors=True)
+
+
+def stdout_case(rng):
+    """main output on standard output (no -o) next to another output file: the reader/worker/writer plumbing must send every stream to its own sink"""
+    ad = "GATTACAGATTC"
+    n = rng.randint(40, 80)
+    recs, lens = [], []
+    for i in range(n):
+        s_ = pipe.rs(rng, rng.randint(3, 40), "ACT") + (ad if rng.random() < 0.4 else "")
+        recs.append((f"r{i}", s_, "".join(chr(33 + rng.randint(5, 40)) for _ in s_)))
+    kind = rng.choice(["too-short", "too-long", "untrimmed", "info", "rest", "short+info"])
+    L = rng.randint(10, 25)
+    argv = {"too-short": ["-m", str(L), "--too-short-output", "{dir}/side.fastq"],
+            "too-long": ["-M", str(L), "--too-long-output", "{dir}/side.fastq"],
+            "untrimmed": ["-a", ad, "--untrimmed-output", "{dir}/side.fastq"],
+            "info": ["-a", ad, "--info-file", "{dir}/info.txt"],
+            "rest": ["-a", ad, "--rest-file", "{dir}/rest.txt"],
+            "short+info": ["-a", ad, "-m", str(L), "--too-short-output", "{dir}/side.fastq", "--info-file", "{dir}/info.txt"]}[kind]
+    text = "".join(f"@{n_}\n{s_}\n+\n{q_}\n" for n_, s_, q_ in recs)
+    bufsize = max(400, len(text) // rng.randint(3, 7))
+    argv = ["--buffer-size", str(bufsize), "-e", "0", "-O", "12"] + argv + ["--json", "{dir}/report.json", "{dir}/in.fastq"]
+    return dict(kind=kind, L=L, ad=ad, argv=argv, inputs={"in.fastq": text}, recs=recs)
+
+
+def _fq(data):
+    lines = data.decode("latin-1").split("\n")
+    return [(lines[i][1:].split()[0], lines[i + 1]) for i in range(0, len(lines) - 3, 4)]
+
+
+def stdout_runs(ctx, prop="C06", n=None):
+    """C06: the outputs of a run with worker processes equal those of the single-core run also when the main output is standard output;
+    C04 (prop='C04'): the written reads / base pairs of the report are what standard output actually holds.
+    The expected content of every sink is also recomputed from the reads (exact adapter copies, -e 0, inserts without G)."""
+    import json
+    rng = ctx.rng
+    for _ in range(n if n is not None else ctx.scale(6, 40)):
+        c = stdout_case(rng)
+        cores = rng.choice([2, 3])
+        st1, out1, f1 = run_with_stdout(c["argv"], c["inputs"], 1)
+        stn, outn, fn_ = run_with_stdout(c["argv"], c["inputs"], cores)
+        ctx.evaluations += 2
+        ctx.count(f"stdout-main-output:{c['kind']}")
+        inp = dict(kind="real-stdout", argv=c["argv"], inputs=c["inputs"], cores=cores, case_kind=c["kind"], L=c["L"], ad=c["ad"])
+        if st1 != 0 or stn != 0:
+            ctx.failures.append(Failure(f"{prop}/status-differs", "a run with the main output on standard output fails or hangs", inp, [st1, stn], [0, 0]))
+            continue
+        # expected sinks, from the reads
+        main, side = [], []
+        for n_, s_, q_ in c["recs"]:
+            p_ = s_.find(c["ad"])
+            t_ = s_[:p_] if p_ >= 0 and "-a" in c["argv"] else s_
+            if c["kind"] in ("too-short", "short+info") and len(t_) < c["L"]:
+                side.append((n_, t_))
+            elif c["kind"] == "too-long" and len(t_) > c["L"]:
+                side.append((n_, t_))
+            elif c["kind"] == "untrimmed" and p_ < 0:
+                side.append((n_, t_))
+            else:
+                main.append((n_, t_))
+        for cores_, out, files in ((1, out1, f1), (cores, outn, fn_)):
+            got_main, got_side = _fq(out), _fq(files.get("side.fastq", b""))
+            if prop == "C06" and (got_main != main or got_side != side):
+                ctx.failures.append(Failure("C06/stream-in-wrong-sink", f"with {cores_} core(s), standard output / the redirect file do not hold the reads that belong "
+                                            "there (in input order)", dict(inp, cores=cores_), dict(stdout=[x[0] for x in got_main][:8], side=[x[0] for x in got_side][:8]),
+                                            dict(stdout=[x[0] for x in main][:8], side=[x[0] for x in side][:8])))
+                break
+            rep = json.loads(files.get("report.json", b"{}") or b"{}")
+            if prop == "C04":
+                want = (rep.get("read_counts", {}).get("output"), rep.get("basepair_counts", {}).get("output"))
+                have = (len(got_main), sum(len(x[1]) for x in got_main))
+                if want != have:
+                    ctx.failures.append(Failure("C04/written-differs-from-stdout", f"with {cores_} core(s), reads / base pairs written according to the report are not what "
+                                                "standard output holds", dict(inp, cores=cores_), dict(report=want), dict(stdout=have)))
+                    break
+        else:
+            if prop == "C06":
+                for k in sorted(set(f1) | set(fn_)):
+                    if k != "report.json" and f1.get(k) != fn_.get(k):
+                        ctx.failures.append(Failure("C06/output-differs-from-single-core", f"{k} of the {cores}-core run differs from the single-core run "
+                                                    "(main output on standard output)", inp, len(fn_.get(k, b"")), len(f1.get(k, b""))))
+                        break
+                else:
+                    if out1 != outn:
+                        ctx.failures.append(Failure("C06/output-differs-from-single-core", "standard output differs from the single-core run", inp, len(outn), len(out1)))
+                    else:
+                        ctx.nontriv("real-stdout:" + hashlib.sha1(repr(c["argv"]).encode()).hexdigest()[:12])
+            else:
+                ctx.nontriv(("stdout-written", tuple(c["argv"])))
+
+
 # ------------------------------------------------------------------------------------------------
 # Statistics.__iadd__
 
@@ -599,6 +725,7 @@ def run(ctx):
         systematic(ctx, 2, 3, 30, fine=True)
         systematic(ctx, 3, 2, 30, fine=True)
     real_runs(ctx, ctx.scale(40, 600), ctx.scale(15, 600))
+    stdout_runs(ctx)
     stats_merge(ctx, ctx.scale(20, 200))
 
 
@@ -627,6 +754,11 @@ def replay(ctx, rp):
         base, base_stats = serial_base(inp["argv"], inp["inputs"])
         r = clirun.run_cli(inp["argv"], inp["inputs"], want_json=False, cores=inp["cores"])
         compare_with_serial(ctx, base, base_stats, r, inp)
+    elif kind == "real-stdout":
+        st1, out1, f1 = run_with_stdout(inp["argv"], inp["inputs"], 1)
+        stn, outn, fn_ = run_with_stdout(inp["argv"], inp["inputs"], inp["cores"] if inp["cores"] > 1 else 2)
+        if (st1, stn) != (0, 0) or out1 != outn or any(f1.get(k) != fn_.get(k) for k in set(f1) | set(fn_) if k != "report.json"):
+            ctx.failures.append(Failure("C06/output-differs-from-single-core", "standard output or a file differs from the single-core run", inp, [st1, stn], None))
     elif kind == "merge":
         parts = []
         for inputs in inp["inputs"]:
